@@ -110,6 +110,23 @@ def _scenario_store_to_store_index(root):
     return {"failed": len(res.failed)}
 
 
+def _scenario_store_to_store_index_jobs(root):
+    """as store-to-store-index, with a parallel status / copy phase (jobs=4): event order varies from run to run"""
+    from dvc_data.hashfile.db.index import ObjectDBIndex
+    from dvc_data.hashfile.transfer import transfer
+
+    from . import env
+
+    state = env.mk_state(root, os.path.join(root, "tmp"))
+    src = env.local_odb(os.path.join(root, "src"))
+    dest = env.local_odb(os.path.join(root, "dest"), state=state)
+    index = ObjectDBIndex(os.path.join(root, "tmp"), "dest")
+    res = transfer(src, dest, _closed_request(src.path), jobs=4, dest_index=index, cache_odb=src)
+    index.close()
+    state.close()
+    return {"failed": len(res.failed)}
+
+
 def _scenario_store_to_store_expanded(root):
     """directories requested alone, to be expanded (shallow=False), into a local store with state"""
     from dvc_data.hashfile.transfer import transfer
@@ -197,6 +214,8 @@ SCENARIOS = {
     "store-to-store": _scenario_store_to_store,
     "store-to-store-expanded": _scenario_store_to_store_expanded,
     "store-to-store-index": _scenario_store_to_store_index,
+    "store-to-store-index-jobs": _scenario_store_to_store_index_jobs,
+    "store-to-store-index-wide": _scenario_store_to_store_index,
     "index-save-hardlink": _scenario_index_save_hardlink,
     "upload-staging": _scenario_upload_staging,
     "push-remote": _scenario_push_remote,
